@@ -90,6 +90,13 @@ func applyOp(w *World, d *core.Dir, op hOp) *core.RunResult {
 		}
 	case "foreign-pem":
 		d.Put(core.PemPath(e.File), op.Data)
+	case "copy-pem":
+		// another entity's (gopki-made) artifact dropped in place: certificate and stored hash belong to a different configuration
+		if src := w.Ent(op.Text); src != nil {
+			if f := d.Files[core.PemPath(src.File)]; f != nil {
+				d.Put(core.PemPath(e.File), f.Data)
+			}
+		}
 	case "touch":
 		d.Touch(e.File)
 	case "run":
@@ -287,7 +294,16 @@ func genHistory(t *rapid.T, maxOps int) c12Case {
 		e := &w.Ents[rapid.IntRange(0, len(w.Ents)-1).Draw(t, l+"-ent")]
 		alias := e.EffAlias()
 		var op hOp
-		switch rapid.IntRange(0, 15).Draw(t, l+"-kind") {
+		switch rapid.IntRange(0, 16).Draw(t, l+"-kind") {
+		case 16:
+			if len(w.Ents) < 2 {
+				continue
+			}
+			src := w.Ents[rapid.IntRange(0, len(w.Ents)-1).Draw(t, l+"-src")].EffAlias()
+			if src == alias {
+				continue
+			}
+			op = hOp{Kind: "copy-pem", Ent: alias, Text: src}
 		case 14:
 			// minimal edit of one extension (one flag, one byte, criticality, ...)
 			if len(e.Extensions) == 0 {
@@ -401,7 +417,7 @@ func genHistory(t *rapid.T, maxOps int) c12Case {
 func TestC12(t *testing.T) {
 	r := core.Start(t, "C12")
 	defer r.Finish()
-	r.Rule = "stateful histories generated against an abstract model of the directory: initial forest of up to 5 entities / 4 tiers (EC keys, profiles, extensions incl. SKI/AKI hash), usually populated by a first run, then 1-6 operations from {edit subject, replace extension list, re-parent to a non-descendant, set/clear profile reference, edit a profile (validity, extension, optional flag), add a leaf, remove a leaf, delete / truncate (0-99%) / strip key / strip certificate / replace with a foreign certificate+key the artifact of any entity, touch a config, run with any of the 32 flag sets}, each optionally followed by a run, and finally a default run. After every successful default run: (I1) every entity has a parseable certificate and key material; (I2) C01's chain checks for all certificates gopki made (hash line); (I3) each of those equals, after normalising serial/key/signature/run-relative dates/key-derived ids, the certificate of a from-scratch gopki run over the current configuration files; (I4) complete user-supplied root artifacts without hash line are byte-identical; (I5) one more default run is a no-op. Non-trivial = history in which some default run regenerates a strict, non-empty subset of the entities; distinct by the whole history."
+	r.Rule = "stateful histories generated against an abstract model of the directory: initial forest of up to 5 entities / 4 tiers (EC keys, profiles, extensions incl. SKI/AKI hash), usually populated by a first run, then 1-6 operations from {edit subject, replace extension list, re-parent to a non-descendant, set/clear profile reference, edit a profile (validity, extension, optional flag), add a leaf, remove a leaf, delete / truncate (0-99%) / strip key / strip certificate / replace with a foreign certificate+key / overwrite with another entity's artifact the artifact of any entity, touch a config, run with any of the 32 flag sets}, each optionally followed by a run, and finally a default run. After every successful default run: (I1) every entity has a parseable certificate and key material; (I2) C01's chain checks for all certificates gopki made (hash line); (I3) each of those equals, after normalising serial/key/signature/run-relative dates/key-derived ids, the certificate of a from-scratch gopki run over the current configuration files; (I4) complete user-supplied root artifacts without hash line are byte-identical; (I5) one more default run is a no-op. Non-trivial = history in which some default run regenerates a strict, non-empty subset of the entities; distinct by the whole history."
 	r.Assumptions = []string{"edits keep the hierarchy acyclic and key types stable (EC only), so every default run is expected to be able to succeed; a failing run makes no claim"}
 	wrap := func(c c12Case) *core.Failure {
 		f, class := checkC12(c)
